@@ -40,6 +40,10 @@ pub enum Op {
     Yield(&'static str),
     Send(usize),
     Select(Vec<usize>),
+    /// select / recv with a deadline (or non-blocking): see `Sched::timeouts_left`
+    TimedSelect(Vec<usize>),
+    /// send with a deadline (or non-blocking)
+    TimedSend(usize),
     RdLock(usize),
     WrLock(usize),
     Join(usize),
@@ -59,6 +63,11 @@ impl Op {
                 let v: Vec<String> = cs.iter().map(|c| c.to_string()).collect();
                 format!("select:{}", v.join("+"))
             }
+            Op::TimedSelect(cs) => {
+                let v: Vec<String> = cs.iter().map(|c| c.to_string()).collect();
+                format!("tselect:{}", v.join("+"))
+            }
+            Op::TimedSend(c) => format!("tsend:{}", c),
             Op::RdLock(l) => format!("rdlock:{}", l),
             Op::WrLock(l) => format!("wrlock:{}", l),
             Op::Join(t) => format!("join:{}", t),
@@ -132,6 +141,9 @@ pub(crate) struct Plan {
     pub budget: u64,
     pub post_budget: u64,
     pub post_rr: bool,
+    /// how many deadlines may expire while other threads could still run (a slow peer); beyond that a deadline
+    /// expires only when nothing else can run (the simulated clock jumps to it)
+    pub timeouts: u64,
     pub now: Option<(i64, u32)>,
     pub choices: Vec<usize>,
     pub picks: Vec<usize>,
@@ -151,6 +163,7 @@ impl Default for Plan {
             budget: 50_000_000,
             post_budget: 50_000_000,
             post_rr: true,
+            timeouts: 1,
             now: None,
             choices: vec![],
             picks: vec![],
@@ -214,6 +227,7 @@ impl Plan {
                 "budget" => p.budget = v.parse().unwrap_or(p.budget),
                 "post_budget" => p.post_budget = v.parse().unwrap_or(p.post_budget),
                 "post_rr" => p.post_rr = v != "0",
+                "timeouts" => p.timeouts = v.parse().unwrap_or(p.timeouts),
                 "now" => {
                     let (s, n) = v.split_once('.').unwrap_or((v, "0"));
                     let mut ns = String::from(n);
@@ -296,6 +310,7 @@ pub struct Sched {
     pub(crate) pick_ix: usize,
     pub(crate) pct_points: Vec<u64>,
     pub(crate) pct_low: u64,
+    pub(crate) timeouts_left: u64,
     trace_file: Option<File>,
     trace_buf: Vec<u8>,
 }
@@ -336,6 +351,8 @@ impl Sched {
                 let m = &self.chans[*c];
                 m.len > 0 || m.senders == 0
             }),
+            Op::TimedSelect(cs) => self.timeouts_left > 0 || self.select_ready(cs),
+            Op::TimedSend(c) => self.timeouts_left > 0 || self.send_ready(*c),
             Op::RdLock(l) => !self.locks[*l].writer,
             Op::WrLock(l) => !self.locks[*l].writer && self.locks[*l].readers == 0,
             Op::Join(t) => matches!(self.threads[*t].state, TState::Finished),
@@ -344,6 +361,25 @@ impl Sched {
             }
             _ => true,
         }
+    }
+
+    pub(crate) fn select_ready(&self, cs: &[usize]) -> bool {
+        cs.iter().any(|c| {
+            let m = &self.chans[*c];
+            m.len > 0 || m.senders == 0
+        })
+    }
+
+    pub(crate) fn send_ready(&self, c: usize) -> bool {
+        let m = &self.chans[c];
+        !m.rx_alive || m.len < m.cap
+    }
+
+    /// a timed operation was scheduled while it cannot complete: its deadline expires
+    pub(crate) fn timeout_fires(&mut self, label: &str) {
+        self.timeouts_left = self.timeouts_left.saturating_sub(1);
+        let line = format!("O {} timeout {} left={}", self.steps, label, self.timeouts_left);
+        self.tr(&line);
     }
 
     fn waiting_dump(&self) -> String {
@@ -378,6 +414,15 @@ impl Sched {
                     enabled.push(tid);
                 } else if self.trace_file.is_some() && !matches!(op, Op::SigWait) {
                     blocked.push(format!("T{}:{}", tid, op.label()));
+                }
+            }
+        }
+        if enabled.is_empty() {
+            // nothing can run: the simulated clock jumps to the earliest deadline (lowest thread id), if there is one
+            for (tid, t) in self.threads.iter().enumerate() {
+                if let TState::Pending(Op::TimedSelect(_)) | TState::Pending(Op::TimedSend(_)) = &t.state {
+                    enabled.push(tid);
+                    break;
                 }
             }
         }
@@ -559,6 +604,7 @@ pub fn init() {
         }
     }
     let policy = plan.policy.clone();
+    let timeouts_left = plan.timeouts;
     let mut s = Sched {
         threads: vec![],
         current: TID_MAIN,
@@ -576,6 +622,7 @@ pub fn init() {
         pick_ix: 0,
         pct_points,
         pct_low: 1000,
+        timeouts_left,
         trace_file,
         trace_buf: Vec::with_capacity(1 << 16),
     };
